@@ -78,6 +78,15 @@ func verifyFunction(ld *Loaded, sp *Specs, key string) (out *FuncVC) {
 	for _, fv := range fn.FreeVars {
 		bindInput(fv.Name(), fv.Type(), fv)
 	}
+	if ct.Implements != "" {
+		// interface parameter names alias the implementation's parameters (receiver excluded)
+		ic := sp.Contracts[ct.Implements]
+		for i, n := range ic.Params {
+			if i+1 < len(fn.Params) {
+				fr.params[n] = fr.params[fn.Params[i+1].Name()]
+			}
+		}
+	}
 	fr.entry = st.clone()
 	x.entrySt = fr.entry
 	env := x.baseEnv(fr, st)
